@@ -40,6 +40,8 @@ pub fn base_types() -> Vec<FTy> {
         ft("Decoy", &["Decoy(1)", "Decoy(2)", "Decoy(200)"], ALL | CONSTVAL),
         // an array whose length is a constant expression, of a non-Copy element type: only `[E; LEN]: Default` itself builds it
         ft("[String; 1 + 1]", &["[String::from(\"a\"), String::new()]", "[String::new(), String::from(\"b\")]", "[String::new(), String::new()]"], ALL & !COPY),
+        // Ord and PartialOrd disagree (see the prelude)
+        ft("Skew", &["Skew(1)", "Skew(2)", "Skew(7)"], ALL | CONSTVAL),
         // not the Into target `Wrap`, although it is spelled with that name at the end of its path
         ft("crate::prelude::alt::Wrap", &["crate::prelude::alt::Wrap(1)", "crate::prelude::alt::Wrap(2)", "crate::prelude::alt::Wrap(-3)"], ALL | CONSTVAL),
     ];
@@ -292,7 +294,7 @@ pub fn lt_str(lt: &str) -> FTy {
 /// Default-expression table: (expression source, is_literal, [(field type, expected value)])
 pub fn default_exprs() -> Vec<(&'static str, Vec<(&'static str, &'static str)>)> {
     vec![
-        ("7", vec![("AliasI32", "7i32"), ("u8", "7u8"), ("i64", "7i64"), ("u64", "7u64"), ("f64", "7f64"), ("Wrap", "Wrap(7)"), ("i16", "7i16"), ("usize", "7usize")]),
+        ("7", vec![("IntoOnly", "IntoOnly(1007)"), ("AliasI32", "7i32"), ("u8", "7u8"), ("i64", "7i64"), ("u64", "7u64"), ("f64", "7f64"), ("Wrap", "Wrap(7)"), ("i16", "7i16"), ("usize", "7usize")]),
         ("1.5", vec![("f64", "1.5f64"), ("f32", "1.5f32"), ("Wrap", "Wrap(12)")]),
         ("true", vec![("bool", "true"), ("Wrap", "Wrap(1)"), ("Option<bool>", "Some(true)")]),
         ("'M'", vec![("char", "'M'"), ("u32", "77u32"), ("Wrap", "Wrap(77)")]),
@@ -302,8 +304,11 @@ pub fn default_exprs() -> Vec<(&'static str, Vec<(&'static str, &'static str)>)>
         ("7u8", vec![("u8", "7u8"), ("Wrap", "Wrap(7)")]),
         ("2.5f32", vec![("f32", "2.5f32")]),
         ("-5", vec![("i16", "-5i16"), ("i64", "-5i64"), ("Wrap", "Wrap(-5)"), ("AliasI32", "-5i32")]),
-        ("-40", vec![("AliasI32", "-40i32"), ("Wrap", "Wrap(-40)"), ("i64", "-40i64"), ("f64", "-40f64")]),
+        ("-40", vec![("IntoOnly", "IntoOnly(960)"), ("AliasI32", "-40i32"), ("Wrap", "Wrap(-40)"), ("i64", "-40i64"), ("f64", "-40f64")]),
         ("0 + 1", vec![("u8", "1u8"), ("u64", "1u64")]),
+        // a comma that no bracket protects (inside `::<..>`): an attribute reader that splits at commas cuts here
+        ("pick2::<u8, u16>(5u8, 6u16)", vec![("u8", "5u8")]),
+        ("pick2::<i64, bool>(-9i64, true)", vec![("i64", "-9i64")]),
         ("!false", vec![("bool", "true")]),
         ("String::from(\"x\")", vec![("String", "String::from(\"x\")")]),
         ("Some(3u8)", vec![("Option<u8>", "Some(3u8)")]),
